@@ -89,6 +89,10 @@ class Histories(RuleBasedStateMachine):
         self.cases = cases
         self.client = ModelClient()
         Histories.ctx.evaluated()
+        # the model: the result of every request on a fresh client with freshly built frames
+        for i, c in enumerate(cases):
+            self._record(i, run_case(copy.deepcopy(c)), "reference_fresh")
+        self.trace = []
 
     def _record(self, i, run, how):
         ctx = Histories.ctx
